@@ -290,6 +290,14 @@ def clone(v, memo=None):
         if hasattr(v, "origin"):
             n.origin = (clone(v.origin[0], memo), v.origin[1])
         return n
+    if isinstance(v, Opaque) and (getattr(v, "shape", None) or hasattr(v, "root")):
+        n = Opaque(v.term)          # n-d arrays are mutable boxes (a store replaces the term): snapshot them
+        memo[id(v)] = n
+        if getattr(v, "shape", None):
+            n.shape = v.shape
+        if hasattr(v, "root"):
+            n.root = clone(v.root, memo)
+        return n
     if isinstance(v, dict):
         n = {}
         memo[id(v)] = n
